@@ -143,7 +143,7 @@ def run(ctx: Ctx):
             rep, counts, want = X.replay_witness()
             ctx.cov["witness_random_alias"] = {"counts_over_identical_calls": counts, "predict": want}
             if rep:
-                ctx.violation("blocking analysis registers tables under random aliases: for a rule not symmetric in l/r in a job "
+                ctx.violation("blocking analysis orders the source datasets differently from the input order (random aliases): for a rule not symmetric in l/r in a job "
                               f"with >= 2 tables identical calls report {sorted(set(counts))} while predict() scores {want}",
                               {"case": X.WITNESS, "implementation": {"post_filter_counts": counts}, "specification": {"predict": want}},
                               {"asymmetric_rule_multi_table": True, "kind": "orientation", "link_type": "link_and_dedupe"})
@@ -201,6 +201,10 @@ def run(ctx: Ctx):
             ctx.hist("backend", c["backend"]); ctx.hist("link_type", c["link_type"]); ctx.hist("tables", len(c["tables"]))
             ctx.hist("n_rules", len(c["rules"])); ctx.hist("rules_owning_pairs", owners_n)
             ctx.hist("has_equi_keys", bool(cnt["equi_join_conditions_identified"])); ctx.hist("has_filter", bool(cnt["filter_conditions_identified"]))
+            asym = [a for a in X.EQUI_ASYM + X.FILTERS_ASYM
+                    if any(a in X.rule_sql(r) and (a != "l.a is not null" or "r.a is not null" not in X.rule_sql(r))
+                           for r in [c["rule"], c["top_rule"]] + list(c["rules"]))]
+            ctx.hist("rule_not_symmetric_in_l_r", ("multi-table" if len(c["tables"]) > 1 else "dedupe") if asym else "none")
             ctx.hist("exploding_rules_in_list", sum(1 for r in c["rules"] if X.is_exploding(r)))
             ctx.hist("single_rule_salted", isinstance(c["rule"], dict)); ctx.hist("max_rows_limit", c.get("max_rows_limit"))
             ctx.hist("post_filter", min(post // 5 * 5, 50)); ctx.hist("listed_blocks", len(res.get("top", [])))
